@@ -315,6 +315,17 @@ func checkSeveralFilters(c *c17Multi) (key, msg string, both bool) {
 	for _, ev := range c.Events {
 		fmt.Fprintf(&b, "  %s:\n", ev.Name)
 		line++
+		switch ev.Name {
+		case "schedule":
+			b.WriteString("    - cron: '0 0 * * *'\n")
+			line++
+		case "issues":
+			b.WriteString("    types: [opened]\n")
+			line++
+		case "repository_dispatch":
+			b.WriteString("    types: [deploy]\n")
+			line++
+		}
 		if ev.Name == "workflow_run" {
 			b.WriteString("    workflows: [ci]\n")
 			line++
@@ -543,9 +554,15 @@ func TestC17(t *testing.T) {
 				pool = append(pool, b.String())
 			}
 			c := &c17Multi{}
-			events := rapid.Permutation([]string{"push", "pull_request", "pull_request_target", "workflow_run"}).Draw(rt, "events")
-			events = events[:rapid.IntRange(1, 4).Draw(rt, "nevents")]
+			// webhook events with filters, interleaved with events that have none
+			events := rapid.Permutation([]string{"push", "pull_request", "pull_request_target", "workflow_run", "workflow_dispatch", "schedule", "workflow_call", "repository_dispatch", "issues"}).Draw(rt, "events")
+			events = events[:rapid.IntRange(1, 6).Draw(rt, "nevents")]
 			for _, ev := range events {
+				switch ev {
+				case "workflow_dispatch", "schedule", "workflow_call", "repository_dispatch", "issues":
+					c.Events = append(c.Events, c17Event{Name: ev})
+					continue
+				}
 				var kinds []string
 				pick := func(a, b string) {
 					switch rapid.IntRange(0, 2).Draw(rt, "pick") {
